@@ -56,7 +56,11 @@ def cpp_specs(ctx, files_quick=7, per_file=80, rand_files_quick=2, rand_per_file
                            # optional that is not the block's first member
                            ['u8<>', 'u8', 'u16*'], ['u8<>', 'u8', 'u8*'], ['u16<@>', 'u8', 'Fx2*'], ['bytes<>', 'u16', 'En*'],
                            # limited array followed by a smaller- and then a larger-aligned member
-                           ['u16<2>', 'u8', 'u32'], ['bytes<5>', 'u8', 'u64'], ['u8<>', 'u8', 'FxO<2>', 'u8', 'u64']]})
+                           ['u16<2>', 'u8', 'u32'], ['bytes<5>', 'u8', 'u64'], ['u8<>', 'u8', 'FxO<2>', 'u8', 'u64'],
+                           # dynamic structs ending in a small optional (size 5/6, alignment 4): arrays of them (_WD)
+                           ['u8<>', 'u8*'], ['u16<@>', 'u16*'], ['bytes<>', 'u32', 'u8*'],
+                           # own dynamic array + nested unlimited tail, used as the last member of another struct (_WT)
+                           ['u8<>', 'Gr4'], ['u16<@>', 'Gr1'], ['Dy4', 'u8', 'Gr4']]})
     nrf = ctx.pick(rand_files_quick, rand_files_thorough)
     for i in range(nrf):
         seeds = [ctx.seed * 100000 + 7000 + i * rand_per_file + k for k in range(rand_per_file)]
